@@ -383,6 +383,7 @@ def run(ctx):
     # ---------- shared skeleton clauses
     import iorules as _io
     _io.take_bytes_length_check(ctx, 'V')       # the inflater may deliver the whole expected size (seed C06-j capped it at 1 MiB + 1)
+    render.cel_rows_grow_only(ctx, rule='E')   # a stored cel cannot be dropped by a later chunk of a lower layer (seed C06-k): it would read as empty
     render.layer_image_unconditional(ctx, rule='N')
     # Cel::image is the shared routine's image for (file, cel id), handed on untouched: no fast path of its own (seed C06-i)
     render.image_delegation(ctx, rule='N', only=('asefile::cel::Cel::image',))
